@@ -1132,6 +1132,7 @@ class Expr:
             "exp",
             "expm1",
             "exp2",
+            "sign",
         }:
             return self.operands[0].is_complex
         elif self.kind == "apply":
